@@ -436,6 +436,12 @@ def ate_text(toks, skip):
         pieces.append(lx)
         if t not in skip:
             arriving.append(t)
+    while pieces and pieces[-1] == ATE_LEX["SPACE"]:
+        # the lines of a text given as str are right-stripped by the tokenizer (documented): blanks at the very end never arrive
+        pieces.pop()
+        if "SPACE" not in skip:
+            assert arriving[-1] == "SPACE"
+            arriving.pop()
     return "".join(pieces), arriving
 
 
